@@ -20,10 +20,10 @@ type AliasCfg struct {
 	Sched     sched.Config `json:"sched"`
 	NDocs     int          `json:"ndocs"`
 	NShards   int          `json:"nshards"`
-	Engine    string       `json:"engine"`          // engine of the shards: scorch | upsidedown
-	Tree      [][]int      `json:"tree,omitempty"`  // groups of shard numbers forming inner aliases (empty = flat)
-	Wrap      bool         `json:"wrap,omitempty"`  // the whole alias is wrapped in a single-member alias
-	Delays    []int        `json:"delays"`          // per shard: simulated delay in ms before answering (0 = none)
+	Engine    string       `json:"engine"`         // engine of the shards: scorch | upsidedown
+	Tree      [][]int      `json:"tree,omitempty"` // groups of shard numbers forming inner aliases (empty = flat)
+	Wrap      bool         `json:"wrap,omitempty"` // the whole alias is wrapped in a single-member alias
+	Delays    []int        `json:"delays"`         // per shard: simulated delay in ms before answering (0 = none)
 	AnalysisQ int          `json:"analysis_q"`
 }
 
